@@ -487,3 +487,247 @@ theorem percentileOf_nonneg (xs : List Nat) (pct : Rat) (hp : 0 ≤ pct) (t : Ra
     nlinarith [mul_nonneg ha (sub_nonneg.mpr hg1), mul_nonneg hb hg0]
 
 end TrackpyV.Find
+
+namespace TrackpyV.Refine
+open Find (InImage flatIdx IsEmbed Fits)
+open Locate (addPos)
+
+/-! ## `Refine.ofArray` is the zero extension of `Find.Image.pix` -/
+
+theorem flatIndex_ofNat : ∀ (shape p : List Nat), InImage shape p →
+    flatIndex shape (p.map Int.ofNat) = some (flatIdx shape p)
+  | [], [], _ => rfl
+  | s :: ss, i :: p, h => by
+    have ih := flatIndex_ofNat ss p h.2
+    have hi : i < s := h.1
+    simp only [List.map_cons, flatIndex]
+    rw [if_pos ⟨by simp, by simpa using hi⟩, ih, Option.map_some,
+      Find.flatIdx_cons s ss i p (Find.InImage.length_eq h.2), Find.foldl_one_prod]
+    simp
+  | [], _ :: _, h => h.elim
+  | _ :: _, [], h => h.elim
+
+theorem flatIndex_some_bounds : ∀ (shape : List Nat) (q : List Int) (k : Nat),
+    flatIndex shape q = some k →
+      ∀ i, i < shape.length → 0 ≤ q.getD i 0 ∧ q.getD i 0 < ((shape.getD i 0 : Nat) : Int)
+  | [], [], _, _ => by simp
+  | s :: ss, i :: is, k, h => by
+    simp only [flatIndex] at h
+    split at h
+    · rename_i hb
+      obtain ⟨rest, hrest, _⟩ := Option.map_eq_some_iff.mp h
+      have ih := flatIndex_some_bounds ss is rest hrest
+      intro j hj
+      cases j with
+      | zero => simpa using hb
+      | succ j => simpa using ih j (by simpa using hj)
+    · cases h
+  | [], _ :: _, _, h => by simp [flatIndex] at h
+  | _ :: _, [], _, h => by simp [flatIndex] at h
+
+theorem getD_map_lt {α β} (f : α → β) (l : List α) (i : Nat) (h : i < l.length) (d : α) (d' : β) :
+    (l.map f).getD i d' = f (l.getD i d) := by
+  simp [List.getD_eq_getElem?_getD, h]
+
+/-- the index vector `q` lies in an image of this shape -/
+def InBounds (shape : List Nat) (q : List Int) : Prop :=
+  ∀ i, i < shape.length → 0 ≤ q.getD i 0 ∧ q.getD i 0 < ((shape.getD i 0 : Nat) : Int)
+
+theorem ofArray_eq_if (shape : List Nat) (data : Array Nat) (q : List Int)
+    (hq : q.length = shape.length) [Decidable (InBounds shape q)] :
+    ofArray shape data q =
+      if InBounds shape q then (⟨shape, data⟩ : Find.Image).pix (q.map Int.toNat) else 0 := by
+  by_cases hb : InBounds shape q
+  · rw [if_pos hb]
+    have hin : InImage shape (q.map Int.toNat) := by
+      rw [Find.inImage_iff_getD]
+      refine ⟨by simp [hq], fun i hi => ?_⟩
+      rw [getD_map_lt Int.toNat q i (by omega) 0 0]
+      have := hb i hi
+      omega
+    have e : q = (q.map Int.toNat).map Int.ofNat := by
+      apply Find.ext_getD 0 shape.length hq (by simp [hq])
+      intro i hi
+      rw [getD_map_lt Int.ofNat _ i (by simp; omega) 0 0, getD_map_lt Int.toNat q i (by omega) 0 0]
+      have := hb i hi
+      simp only [Int.ofNat_eq_natCast]
+      omega
+    unfold ofArray
+    rw [e, flatIndex_ofNat shape _ hin, ← e]
+    rfl
+  · rw [if_neg hb]
+    unfold ofArray
+    cases hfi : flatIndex shape q with
+    | none => rfl
+    | some k => exact absurd (flatIndex_some_bounds shape q k hfi) hb
+
+/-- `q − off`, as a vector of length `n` -/
+def subOff (n : Nat) (q : List Int) (off : List Nat) : List Int :=
+  (List.range n).map (fun i => q.getD i 0 - ((off.getD i 0 : Nat) : Int))
+
+/-- **an embedded array, read as a `Refine.Image`, is the zero-extended content read at `q − off`** -/
+theorem ofArray_embed (content big : Find.Image) (off : List Nat) (h : IsEmbed content off big)
+    (q : List Int) (hq : q.length = content.shape.length) :
+    ofArray big.shape big.data q =
+      ofArray content.shape content.data (subOff content.shape.length q off) := by
+  classical
+  obtain ⟨hol, hNl, hfit⟩ := (Find.fits_iff_getD _ _ _).mp h.fits
+  rw [ofArray_eq_if big.shape big.data q (by omega),
+    ofArray_eq_if content.shape content.data _ (by simp [subOff])]
+  by_cases hreg : InBounds content.shape (subOff content.shape.length q off)
+  · have hreg' : ∀ i, i < content.shape.length →
+        ((off.getD i 0 : Nat) : Int) ≤ q.getD i 0 ∧
+          q.getD i 0 < ((off.getD i 0 : Nat) : Int) + ((content.shape.getD i 0 : Nat) : Int) := by
+      intro i hi
+      have := hreg i hi
+      rw [subOff, getD_rangeMap _ _ i hi 0] at this
+      omega
+    have hbig : InBounds big.shape q := by
+      intro i hi
+      have := hreg' i (by omega)
+      have := hfit i (by omega)
+      omega
+    rw [if_pos hreg, if_pos hbig]
+    have hu : InImage content.shape ((subOff content.shape.length q off).map Int.toNat) := by
+      rw [Find.inImage_iff_getD]
+      refine ⟨by simp [subOff], fun i hi => ?_⟩
+      rw [getD_map_lt Int.toNat _ i (by simp [subOff]; omega) 0 0]
+      have := hreg i hi
+      omega
+    have e : q.map Int.toNat = addPos ((subOff content.shape.length q off).map Int.toNat) off := by
+      apply Find.ext_getD 0 content.shape.length (by simp [hq])
+        (by simp [Find.addPos_length, subOff]; omega)
+      intro i hi
+      rw [Find.addPos_getD _ _ i (by simp [subOff]; omega) (by omega),
+        getD_map_lt Int.toNat q i (by omega) 0 0,
+        getD_map_lt Int.toNat _ i (by simp [subOff]; omega) 0 0, subOff, getD_rangeMap _ _ i hi 0]
+      have := hreg' i hi
+      omega
+    rw [e]
+    exact h.pix_in _ hu
+  · rw [if_neg hreg]
+    split
+    · rename_i hbig
+      apply h.pix_out
+      · rw [Find.inImage_iff_getD]
+        refine ⟨by simp [hq, hNl], fun i hi => ?_⟩
+        rw [getD_map_lt Int.toNat q i (by omega) 0 0]
+        have := hbig i hi
+        omega
+      · intro u hu e
+        obtain ⟨hul, hub⟩ := (Find.inImage_iff_getD _ _).mp hu
+        apply hreg
+        intro i hi
+        rw [subOff, getD_rangeMap _ _ i hi 0]
+        have e' : (q.map Int.toNat).getD i 0 = (addPos u off).getD i 0 := by rw [e]
+        rw [getD_map_lt Int.toNat q i (by omega) 0 0,
+          Find.addPos_getD u off i (by omega) (by omega)] at e'
+        have := hub i hi
+        have := hbig i (by omega)
+        omega
+    · rfl
+
+/-- the displacement `off₂ − off₁`, as an integer vector of length `n` -/
+def disp (n : Nat) (off₁ off₂ : List Nat) : List Int :=
+  (List.range n).map (fun i => ((off₂.getD i 0 : Nat) : Int) - ((off₁.getD i 0 : Nat) : Int))
+
+/-- two images agree on all index vectors of length `n` -/
+def AgreeN (n : Nat) (a b : Image) : Prop := ∀ q : List Int, q.length = n → a q = b q
+
+/-- **two embeddings of one content are `shiftImg` of each other** (on index vectors of the right
+length — the only ones the refinement ever reads) -/
+theorem ofArray_shift_of_embed (content big₁ big₂ : Find.Image) (off₁ off₂ : List Nat)
+    (h₁ : IsEmbed content off₁ big₁) (h₂ : IsEmbed content off₂ big₂) :
+    AgreeN content.shape.length (ofArray big₂.shape big₂.data)
+      (shiftImg content.shape.length (disp content.shape.length off₁ off₂)
+        (ofArray big₁.shape big₁.data)) := by
+  intro q hq
+  unfold shiftImg
+  rw [ofArray_embed content big₂ off₂ h₂ q hq, ofArray_embed content big₁ off₁ h₁ _ (by simp)]
+  congr 1
+  unfold subOff
+  apply List.map_congr_left
+  intro i hi
+  have hi' : i < content.shape.length := by simpa using hi
+  rw [getD_rangeMap _ _ i hi' 0, disp, getD_rangeMap _ _ i hi' 0]
+  omega
+
+/-! ## the refinement reads index vectors of length `ndim` only -/
+
+section congr
+variable {img img' : Image} {radius : List Nat}
+
+theorem wsum_agree (h : AgreeN radius.length img img') (mask : List (List Nat)) (c : List Int)
+    (w : List Nat → Rat) :
+    wsum img mask (origin radius c) w = wsum img' mask (origin radius c) w := by
+  unfold wsum
+  congr 1
+  apply List.map_congr_left
+  intro off _
+  rw [h _ (by rw [addOff_length, origin_length])]
+
+theorem massAt_agree (h : AgreeN radius.length img img') (mask : List (List Nat)) (c : List Int) :
+    massAt img mask (origin radius c) = massAt img' mask (origin radius c) := wsum_agree h ..
+
+theorem cmN_agree (h : AgreeN radius.length img img') (mask : List (List Nat)) (c : List Int) (i : Nat) :
+    cmN img mask radius (origin radius c) i = cmN img' mask radius (origin radius c) i := by
+  unfold cmN momAt
+  rw [massAt_agree h, wsum_agree h]
+
+theorem maskMax_agree (h : AgreeN radius.length img img') (mask : List (List Nat)) (c : List Int) :
+    maskMax img mask (origin radius c) = maskMax img' mask (origin radius c) := by
+  unfold maskMax
+  congr 1
+  apply List.map_congr_left
+  intro off _
+  rw [h _ (by rw [addOff_length, origin_length])]
+
+theorem offCentre_agree (h : AgreeN radius.length img img') (mask : List (List Nat)) (c : List Int) :
+    offCentre img mask radius c = offCentre img' mask radius c := by
+  unfold offCentre
+  apply List.map_congr_left
+  intro i _
+  rw [cmN_agree h]
+
+theorem posAt_agree (h : AgreeN radius.length img img') (mask : List (List Nat)) (c : List Int) :
+    posAt img mask radius c = posAt img' mask radius c := by
+  unfold posAt
+  apply List.map_congr_left
+  intro i _
+  rw [cmN_agree h]
+
+theorem rg2At_agree (h : AgreeN radius.length img img') (mask : List (List Nat)) (c : List Int) :
+    rg2At img mask radius (origin radius c) = rg2At img' mask radius (origin radius c) := by
+  unfold rg2At
+  simp only [wsum_agree h, massAt_agree h]
+
+theorem eccAt_agree (h : AgreeN radius.length img img') (mask : List (List Nat)) (c : List Int) :
+    eccAt img mask radius (origin radius c) = eccAt img' mask radius (origin radius c) := by
+  unfold eccAt
+  simp only [wsum_agree h, h _ (by rw [addOff_length, origin_length] : (addOff (origin radius c) radius).length = radius.length)]
+
+theorem lastCentre_agree (h : AgreeN radius.length img img') (thr : Rat) (mask : List (List Nat))
+    (shape : List Nat) : ∀ (k : Nat) (c : List Int),
+    lastCentre thr img mask radius shape k c = lastCentre thr img' mask radius shape k c
+  | 0, _ => rfl
+  | k + 1, c => by
+    simp only [lastCentre, offCentre_agree h]
+    split
+    · rfl
+    · exact lastCentre_agree h thr mask shape k _
+
+/-- `refineOne` depends on its two images only through their values on index vectors of length
+`ndim = radius.length` -/
+theorem refineOne_agree {raw raw' : Image} (h : AgreeN radius.length img img')
+    (hr : AgreeN radius.length raw raw') (thr : Rat) (shape : List Nat) (maxIter : Nat)
+    (start : List Int) :
+    refineOne thr img raw radius shape maxIter start = refineOne thr img' raw' radius shape maxIter start := by
+  unfold refineOne
+  rw [lastCentre_agree h]
+  unfold measure
+  simp only [posAt_agree h, massAt_agree h, massAt_agree hr, rg2At_agree h, eccAt_agree h,
+    maskMax_agree h]
+
+end congr
+
+end TrackpyV.Refine
